@@ -48,6 +48,8 @@ structure Sim where
   stalled : Bool := false
   /-- the peer has sent only part of a frame's payload: the read loop stays where it is -/
   rdHold : Bool := false
+  /-- the script has callers that keep calling SendNoWait with an already-cancelled context (`spin:n`) -/
+  spin : Bool := false
 
 def negGSV : Nat := 900
 def negSPV : Nat := 901
@@ -213,6 +215,7 @@ def parseOp (m : Sim) (t : String) : Option Op :=
     match c.toNat? with
     | some c => some (.env (fun m => act { m with cs := m.cs ++ [c], shut := m.shut ++ [c] } (.callIssue c 14 0 false)) false)
     | none => none
+  | ["spin", _] => some (.env (fun m => { m with spin := true }) false)
   | ["cancel", c] => c.toNat?.map (fun c => .env (fun m => act m (.cancel c)) false)
   | ["close"] => some (.env (fun m => act m .close) false)
   | ["w", n] => n.toNat?.map (fun n => .wait (fun m => m.s.written.length ≥ n))
@@ -264,7 +267,11 @@ def showSim (m : Sim) : String :=
       | .returned .fail => "fail"
       | _ => "run"
     let cl := " ".intercalate (m.s.closeLog.map (fun b => if b then "nil" else "closed"))
-    s!"wr=[{wr}] res=[{res}] conn={conn} close=[{cl}]" ++ (if m.s.panicked then " PANIC" else "")
+    -- spinning callers never pass a gate that stays closed (`callReady` needs `ready`; with a cancelled context the
+    -- caller's other enabled step is `callCtx`): they add nothing to the wire and none of their calls returns nil.
+    -- Once the gate has opened such a call may legitimately be sent, which this interpreter does not model.
+    if m.spin && m.s.negotiated then "spin-with-open-gate (outside the interpreter's domain)" else
+    s!"wr=[{wr}] res=[{res}] conn={conn} close=[{cl}]" ++ (if m.s.panicked then " PANIC" else "") ++ (if m.spin then " spin=0" else "")
 
 def runScript (ops : List String) : String :=
   match play 0 ops 0 {}, play 1 ops 0 {}, play 2 ops 0 {} with
